@@ -122,6 +122,9 @@ type Term struct {
 func T(s string, so *Sort) Term { return Term{S: s, Sort: so} }
 
 func App(so *Sort, f string, args ...Term) Term {
+	if len(args) == 0 {
+		return Term{S: f, Sort: so}
+	}
 	var b strings.Builder
 	b.WriteString("(")
 	b.WriteString(f)
